@@ -17,8 +17,9 @@ import vlib
 LEVEL = "model_checking"
 
 VH_DEFECTS = ("NoSort", "SuffixMayEqualHost", "AnyPortFirst", "EmptyHostNone")
-RT_DEFECTS = ("HeaderDisjunction", "FastMatchIgnoresRegexFlag", "VarLeftToRight", "PrefixAsContains", "LastMatchWins")
-CATCHALL = {"k": "rpc", "pa": [], "re": "", "hs": [], "vs": []}
+RT_DEFECTS = ("HeaderDisjunction", "FastMatchIgnoresRegexFlag", "VarLeftToRight", "PrefixAsContains", "LastMatchWins",
+              "DslErrorHolds", "QueryAnyMatcher", "LastIndexedWins", "SkipAbsentCluster")
+CATCHALL = {"k": "rpc", "pa": [], "re": "", "hs": [], "vs": [], "qs": [], "ds": []}
 DEFAULT_DOM = {"h": ["*"], "p": ""}
 
 
@@ -70,10 +71,10 @@ def run(ctx):
     rlines = vlib.read_jsonl(rraw)
     areqs = [x for x in vlines if x["kind"] == "reqs"][0]["reqs"]
     rreqs = [x for x in rlines if x["kind"] == "rreqs"][0]["reqs"]
-    menus = [x for x in rlines if x["kind"] in ("valre", "pathre")]
+    menus = [x for x in rlines if x["kind"] in ("valre", "pathre", "kvs", "qparse")]
     vcfgs = sorted((x["vhosts"] for x in vlines if x["kind"] == "cfg"), key=lambda c: json.dumps(c, sort_keys=True))
     rlists = sorted((x["rules"] for x in rlines if x["kind"] == "rules"), key=lambda c: json.dumps(c, sort_keys=True))
-    if not areqs or not rreqs or not vcfgs or not rlists or len(menus) != 2:
+    if not areqs or not rreqs or not vcfgs or not rlists or len(menus) != 4:
         raise vlib.Inconclusive("case emission incomplete")
     a_plain = [i for i, a in enumerate(areqs) if a["h"] == ["a", ".", "c"] and a["p"] == ""][:1]
     r_plain = [i for i, r in enumerate(rreqs) if r["path"] == ["/", "a"] and r["method"] == "GET" and r["query"] == ""
@@ -94,24 +95,47 @@ def run(ctx):
         sampled = True
         return rng.sample(items, cap)
 
+    def clusters_of(vhosts):
+        return [r["c"] for v in vhosts for r in v["rules"]]
+
+    def subsets(names, cap):
+        """cluster sets under which the handler is asked: all of them for <= 3 clusters, else the full set, the empty set
+        and seed-chosen ones"""
+        if len(names) <= 3:
+            out = [[n for i, n in enumerate(names) if m >> i & 1] for m in range(1 << len(names))]
+        else:
+            out = [list(names), []] + [[n for n in names if rng.random() < 0.5] for _ in range(cap)]
+        return out[:max(cap, 2)] if len(out) > cap and len(names) > 3 else out
+
+    def with_extras(case, kv, nsub, hreqs):
+        case["kv"] = kv
+        case["present"] = subsets(clusters_of(case["vhosts"]), nsub) if nsub else []
+        case["hreqs"] = hreqs
+        return case
+
     # virtual-host part: every virtual host gets one catch-all route, so the cluster names the virtual host
     v_small = [c for c in vcfgs if nd(c) <= 2]
     v_big = pick([c for c in vcfgs if nd(c) > 2], 3000 if q else None)
     r_small = [l for l in rlists if len(l) <= 2]
     r_big = pick([l for l in rlists if len(l) > 2], 250 if q else 5000)
     cases = []
-    for c in v_small + v_big:
-        cases.append(dict(kind="case", part="vhost", hist=False, areqs=all_a, rreqs=r_plain,
-                          vhosts=with_clusters([{"doms": v, "rules": [CATCHALL]} for v in c])))
+    for n, c in enumerate(v_small + v_big):
+        case = dict(kind="case", part="vhost", hist=False, areqs=all_a, rreqs=r_plain,
+                    vhosts=with_clusters([{"doms": v, "rules": [CATCHALL]} for v in c]))
+        # every 8th configuration also through the handler (one cluster set) and the key/value index
+        cases.append(with_extras(case, n % 8 == 0, 1 if n % 8 == 0 else 0, r_plain))
     for l in r_small + r_big:
-        cases.append(dict(kind="case", part="route", hist=False, areqs=a_plain, rreqs=all_r,
-                          vhosts=with_clusters([{"doms": [DEFAULT_DOM], "rules": l}])))
+        case = dict(kind="case", part="route", hist=False, areqs=a_plain, rreqs=all_r,
+                    vhosts=with_clusters([{"doms": [DEFAULT_DOM], "rules": l}]))
+        cases.append(with_extras(case, True, 8, rng.sample(all_r, 5)))
     # composition: several virtual hosts with their own rule lists
     ncomb = 250 if q else 2500
     for _ in range(ncomb):
         c = rng.choice(vcfgs)
-        cases.append(dict(kind="case", part="combined", hist=False, areqs=all_a, rreqs=rng.sample(all_r, 4),
-                          vhosts=with_clusters([{"doms": v, "rules": rng.choice(rlists)} for v in c])))
+        rr = rng.sample(all_r, 4)
+        case = dict(kind="case", part="combined", hist=False, areqs=all_a, rreqs=rr,
+                    vhosts=with_clusters([{"doms": v, "rules": rng.choice(rlists)} for v in c]))
+        cases.append(with_extras(case, True, 2, rr[:2]))
     # determinism: the same configurations reached through an update history, looked up concurrently
     nhist = 400 if q else 4000
     hist = []
@@ -119,15 +143,17 @@ def run(ctx):
         k = rng.randrange(3)
         if k == 0:
             c = rng.choice(vcfgs)
-            hist.append(dict(kind="case", part="hist-vhost", hist=True, areqs=all_a, rreqs=r_plain,
-                             vhosts=with_clusters([{"doms": v, "rules": [CATCHALL]} for v in c])))
+            hist.append(with_extras(dict(kind="case", part="hist-vhost", hist=True, areqs=all_a, rreqs=r_plain,
+                                         vhosts=with_clusters([{"doms": v, "rules": [CATCHALL]} for v in c])), False, 0, []))
         elif k == 1:
-            hist.append(dict(kind="case", part="hist-route", hist=True, areqs=a_plain, rreqs=rng.sample(all_r, 24),
-                             vhosts=with_clusters([{"doms": [DEFAULT_DOM], "rules": rng.choice(rlists)}])))
+            rr = rng.sample(all_r, 24)
+            hist.append(with_extras(dict(kind="case", part="hist-route", hist=True, areqs=a_plain, rreqs=rr,
+                                         vhosts=with_clusters([{"doms": [DEFAULT_DOM], "rules": rng.choice(rlists)}])), True, 2, rr[:3]))
         else:
             c = rng.choice(vcfgs)
-            hist.append(dict(kind="case", part="hist-combined", hist=True, areqs=all_a, rreqs=rng.sample(all_r, 3),
-                             vhosts=with_clusters([{"doms": v, "rules": rng.choice(rlists)} for v in c])))
+            rr = rng.sample(all_r, 3)
+            hist.append(with_extras(dict(kind="case", part="hist-combined", hist=True, areqs=all_a, rreqs=rr,
+                                         vhosts=with_clusters([{"doms": v, "rules": rng.choice(rlists)} for v in c])), True, 1, rr[:1]))
     casefile = os.path.join(ctx.tmp, "cases.jsonl")
     with open(casefile, "w") as fh:
         fh.write(json.dumps(dict(kind="reqs", reqs=areqs)) + "\n")
@@ -203,7 +229,9 @@ def run(ctx):
         sig = "C04:%s" % kind
         # updates between the configuration and this event (history cases)
         ups = [x for x in evs[(cfg_at.get(gi) or 0):gi] if x["ev"] in ("addroute", "removeall")]
-        vlib.report_failure(ctx, sig, dict(line=gi + 1, part=part, via=via, event=e, config=c, updates=ups[-8:]))
+        cl = [x for x in evs[(cfg_at.get(gi) or 0):gi] if x["ev"] == "clusters"]
+        vlib.report_failure(ctx, sig, dict(line=gi + 1, part=part, via=via, event=e, config=c, updates=ups[-8:],
+                                           clusters=cl[-1]["present"] if cl else None))
 
     for k, v in enumerate(results):
         lo, hi = chunks[k]
@@ -248,7 +276,9 @@ def run(ctx):
     looks = [e for e in evs if e["ev"] == "look"]
     ncfg = sum(1 for e in evs if e["ev"] == "cfg") + len(starts)
     ctx.cov["traces_validated_against_impl"] = ncfg
-    ctx.cov["evaluations"] = len(looks) + sum(1 for e in evs if e["ev"] in ("cfg", "addroute", "removeall")) + nsend
+    nh = sum(1 for e in evs if e["ev"] == "hlook")
+    nkv = sum(1 for e in evs if e["ev"] == "kvlook")
+    ctx.cov["evaluations"] = len(looks) + sum(1 for e in evs if e["ev"] in ("cfg", "addroute", "removeall")) + nsend + nh + nkv
     distinct = set()
     c = None
     for e in evs:
@@ -257,7 +287,8 @@ def run(ctx):
         elif e["ev"] == "look":
             distinct.add(hash((c, json.dumps([e["h"], e["p"], e["path"], e["method"], e["query"], e["hd"]]))))
     ctx.cov["distinct_nontrivial"] = len(distinct)
-    ctx.cov["trace_events"] = {"total": len(evs), "cfg": ncfg, "look": len(looks),
+    ctx.cov["trace_events"] = {"total": len(evs), "cfg": ncfg, "look": len(looks), "handler_look": nh, "headerkv_look": nkv,
+                               "cluster_sets": sum(1 for e in evs if e["ev"] == "clusters"),
                                "addroute": sum(1 for e in evs if e["ev"] == "addroute"),
                                "removeall": sum(1 for e in evs if e["ev"] == "removeall"),
                                "refused": sum(1 for e in evs if e["ev"] == "cfg" and e["err"])}
